@@ -88,6 +88,7 @@ COLLISIONS = {
     "module named like its package": {"same/__init__.py": "", "same/same.py": "def same() -> int:\n    return 1\n\n\nclass Same:\n    pass\n"},
     "enum of a sibling module used as a type": {"c8/__init__.py": "", "c8/colors.py": "from enum import Enum\n\n\nclass Color(Enum):\n    RED = 1\n\n\ndef mix(a: int) -> int:\n    return a\n", "c8/paint.py": "from vpkg.c8.colors import Color\n\n\ndef paint(c: Color) -> Color:\n    return c\n"},
     "class of a sibling module used as a type": {"c9/__init__.py": "", "c9/shapes.py": "class Shape:\n    def area(self) -> int:\n        return 1\n\n\ndef mk() -> Shape:\n    return Shape()\n", "c9/draw.py": "from vpkg.c9.shapes import Shape\n\n\ndef draw(c: Shape) -> Shape:\n    return c\n"},
+    "NewType of a sibling module used as a type": {"c10/__init__.py": "", "c10/nt.py": "from typing import NewType\n\nUserId = NewType('UserId', int)\n\n\nclass Holder:\n    def h(self) -> int:\n        return 1\n", "c10/use.py": "from vpkg.c10.nt import UserId\n\n\ndef use(u: UserId) -> int:\n    return 1\n"},
     "same class re-exported by two packages": {"c7/__init__.py": "from .p1._i import K\n", "c7/p1/__init__.py": "from ._i import K\n", "c7/p1/_i.py": "class K:\n    def k(self) -> int:\n        return 1\n"},
 }
 
@@ -95,7 +96,7 @@ COLLISIONS = {
 def run(rep: Report, tier: str, seed: int) -> None:
     specs = enumerate_trees(tier)
     rep.rule = (
-        "C03 trees (packed 120 per run) x naming conversion off/on, every output file checked; 13 inputs built to collide or to confuse the path computation (two stub texts for one path, declarations named like / prefix of the re-exporting package, class named like an ancestor package, module named like its package);"
+        "C03 trees (packed 120 per run) x naming conversion off/on, every output file checked; 14 inputs built to collide or to confuse the path computation (two stub texts for one path, declarations named like / prefix of the re-exporting package, class named like an ancestor package, module named like its package);"
         " console-script runs over 8 spellings of source/output path (absolute, relative, trailing slash, '..', pre-existing output, output inside source's parent, source given as parent directory); distinct = distinct (tree/input label, options)"
     )
     spec_by_tid = {s.tid: s for s in specs}
@@ -155,7 +156,9 @@ def run(rep: Report, tier: str, seed: int) -> None:
         # foreign-class placeholder files are written after the module stubs: they must not overwrite one
         for path, text in seen.items():
             final = obs.files.get(path)
-            if final is not None and final != text:
+            # (placeholder classes may be APPENDED to a file written in the same run - the tool does the same for several
+            # classes of one foreign module; the text the generator produced for the path must survive as a whole)
+            if final is not None and not final.startswith(text):
                 rep.violation("one-text-per-path", f"one-text-per-path:overwritten|{feat}", {"path": path, "generator_text": text[:200], "file_text": final[:200]}, files=files if kind == "collision" else None, src_rel=PKG, opts=opts)
         rep.ok("layout")
 
